@@ -20,6 +20,11 @@ Definition consistent (glat glon : R) (l : list R) : Prop :=
 Lemma sq_sqrt_sum a b : sqrt (a * a + b * b) * sqrt (a * a + b * b) = a * a + b * b.
 Proof. apply sqrt_sqrt. nra. Qed.
 
+(* 0 <= sum of squares, whether the source writes a*a or a^2 (structural: the squared terms can be arbitrarily large) *)
+Ltac sumsq_nonneg :=
+  repeat apply Rplus_le_le_0_compat;
+  solve [ apply Rle_0_sqr | apply pow2_ge_0 | nra ].
+
 (* closes one conjunct of derived_ok whatever the order in which the source adds its squares *)
 Ltac close_elem :=
   first [ reflexivity
@@ -27,7 +32,7 @@ Ltac close_elem :=
         | solve [rewrite sq_sqrt_sum; f_equal; ring]
         | solve [match goal with |- sqrt ?a = sqrt ?b =>
                    f_equal; repeat rewrite sq_sqrt_sum;
-                   repeat match goal with |- context [sqrt ?e * sqrt ?e] => rewrite (sqrt_sqrt e) by nra end; ring end]
+                   repeat match goal with |- context [sqrt ?e * sqrt ?e] => rewrite (sqrt_sqrt e) by sumsq_nonneg end; ring end]
         | solve [f_equal; f_equal; ring] ].
 
 Ltac griv glat :=
@@ -90,8 +95,28 @@ Proof.
   unfold C15_elements_NED_R, C15_elements_ENU_R; cbv zeta.
   destruct (Rlt_dec 55 glat) as [A|A]; destruct (Rlt_dec glat (-55)) as [B|B]; try (exfalso; lra);
   do 13 eexists; (split; [reflexivity|]); (split; [val_eq; try reflexivity; try ring|]);
-  (split; [close_elem|]);
-  (f_equal; rewrite !sq_sqrt_sum; ring).
+  (split; [close_elem|]); close_elem.
+Qed.
+
+(* what the ENU frame does to the angles (observed behaviour, recorded so that a change is noticed): they are computed from
+   the swapped components, so the inclination changes sign *)
+Lemma atan2_opp_pos z h : 0 < h -> atan2 (- z) h = - atan2 z h.
+Proof.
+  intros Hh. unfold atan2. destruct (Rlt_dec 0 h); [|contradiction].
+  replace (- z / h) with (- (z / h)) by (field; lra). apply atan_opp.
+Qed.
+
+Lemma enu_inclination_negated xp yp zp lp la glat glon :
+  forall ln le, C15_elements_NED_R xp yp zp lp la glat glon = Val ln -> C15_elements_ENU_R xp yp zp lp la glat glon = Val le ->
+  0 < nth 3 ln 0 -> nth 5 le 0 = - nth 5 ln 0.
+Proof.
+  intros ln le En Ee Hpos.
+  destruct (enu_swaps_ned xp yp zp lp la glat glon) as (X & Y & Z & H & F & Ic & D & GV & H' & F' & Ic' & D' & GV' & E1 & E2 & EH & EF).
+  destruct (elements_NED_spec xp yp zp lp la glat glon) as (l1 & E1' & C1 & _).
+  destruct (elements_ENU_spec xp yp zp lp la glat glon) as (l2 & E2' & C2 & _).
+  rewrite E1 in En, E1'. rewrite E2 in Ee, E2'. injection En as <-. injection Ee as <-. injection E1' as <-. injection E2' as <-.
+  cbn [nth] in *. destruct C1 as (_ & _ & HI & _). destruct C2 as (_ & _ & HI' & _).
+  rewrite HI, HI', EH, atan2_opp_pos by exact Hpos. ring.
 Qed.
 
 Lemma frame_swap x y z : C15_frame_NED_R x y z = Val [x; y; z] /\ C15_frame_ENU_R x y z = Val [y; x; - z].
@@ -160,13 +185,16 @@ Qed.
 Lemma scale_not_idempotent g : g <> 0 -> scale20 (scale20 g) <> scale20 g.
 Proof. intros H. rewrite !scale20_val. intros E. apply H. lra. Qed.
 
-(* non-vacuity: a concrete evaluation of the tail *)
-Example elements_sample : exists l, C15_elements_NED_R 3 0 4 0 0 10 20 = Val l /\ nth 3 l 0 = 3 /\ nth 4 l 0 = 5 /\ nth 0 l 0 = 3.
+(* non-vacuity: a concrete evaluation of the tail (through the specification, so it does not depend on how the source
+   spells its squares) *)
+Example elements_sample : exists l, C15_elements_NED_R 3 0 4 0 0 10 20 = Val l /\ nth 0 l 0 = 3 /\ nth 3 l 0 = 3 /\ nth 4 l 0 = 5.
 Proof.
-  unfold C15_elements_NED_R; cbv zeta.
-  destruct (Rlt_dec 55 10); [exfalso; lra|]. destruct (Rlt_dec 10 (-55)); [exfalso; lra|].
-  eexists. split; [reflexivity|]. cbn [nth]. replace (0 - 0) with 0 by ring. rewrite cos_0, sin_0.
-  replace (3 * 1 - 4 * 0) with 3 by ring. replace (3 * 0 + 4 * 1) with 4 by ring.
-  replace (3 * 3 + 0 * 0) with (3 * 3) by ring. rewrite sqrt_sq_abs, Rabs_right by lra.
-  replace (3 * 3 + 4 * 4) with (5 * 5) by ring. rewrite sqrt_sq_abs, Rabs_right by lra. repeat split.
+  destruct (elements_NED_spec 3 0 4 0 0 10 20) as (l & E & C & HX & HY & HZ). exists l. split; [exact E|].
+  destruct l as [|X [|Y [|Z [|H [|F [|Ic [|D [|GV [|]]]]]]]]]; try contradiction.
+  cbn [nth] in *. destruct C as (HH & HF & _).
+  replace (0 - 0) with 0 in * by ring. rewrite cos_0, sin_0 in *.
+  assert (EX : X = 3) by lra. assert (EZ : Z = 4) by lra. clear HX HZ. subst X Y Z.
+  split; [reflexivity|]. split.
+  - rewrite HH. replace (3 * 3 + 0 * 0) with (3 * 3) by ring. rewrite sqrt_sq_abs, Rabs_right by lra. reflexivity.
+  - rewrite HF. replace (3 * 3 + 0 * 0 + 4 * 4) with (5 * 5) by ring. rewrite sqrt_sq_abs, Rabs_right by lra. reflexivity.
 Qed.
